@@ -128,7 +128,8 @@ FrCosmo ==
 
 FrHtm == {
   FrC("HTM.lookup_id", "htm", "copy", <<Lon("ra"), Lat("dec")>>, {0, 1, 2}, {"depth10", "depth4"}, {}),
-  FrC("HTM.intersect", "htm", "alias_read", <<Lon("ra"), Lat("dec"), FrP("radius", "radius", FLT, "f8")>>, {0}, {"inclusive", "exclusive"}, {}),
+  \* HTM.intersect takes python floats (documented "ra: float"; the SWIG wrapper refuses arrays) and
+  \* HTM.match_prepare is a deprecated stub that always raises: neither has an array argument to protect
   FrC("HTM.match", "htm", "copy", <<Lon("ra1"), Lat("dec1"), Lon("ra2"), Lat("dec2"), FrP("radius", "radius", FLT, "f8")>>, {0, 1, 2},
       {"maxmatch1", "maxmatch0", "file", "radius_scalar"}, {}),
   FrC("Matcher()", "htm", "copy", <<Lon("ra"), Lat("dec")>>, {0, 1, 2}, {"depth10"}, {}),
@@ -137,8 +138,7 @@ FrHtm == {
   FrC("HTM.bincount+scale", "htm", "copy", <<Lon("ra1"), Lat("dec1"), Lon("ra2"), Lat("dec2"), FrP("scale", "scale", NUM, "f8")>>, {1}, {"default"}, {}),
   FrC("HTM.bincount+htmid2", "htm", "copy", <<Lon("ra1"), Lat("dec1"), Lon("ra2"), Lat("dec2"), FrP("htmid2", "htmid2", {"i8", "i4"}, "i8")>>, {1}, {"default"}, {}),
   FrC("HTM.cylmatch", "htm", "copy", <<Lon("ra1"), Lat("dec1"), Z("z1", "zlo"), Lon("ra2"), Lat("dec2"), Z("z2", "zlo"),
-                                      FrP("radius", "radius", FLT, "f8"), FrP("dz", "dz", FLT, "f8")>>, {1}, {"default", "unique"}, {}),
-  FrC("HTM.match_prepare", "htm", "copy", <<Lon("ra"), Lat("dec")>>, {1}, {"default"}, {}) }
+                                      FrP("radius", "radius", FLT, "f8"), FrP("dz", "dz", FLT, "f8")>>, {1}, {"default", "unique"}, {}) }
 
 FrCalls == FrRecfile \cup FrFields \cup FrByteOrder \cup FrMatch \cup FrHist \cup FrStats \cup FrCoords \cup FrWcs \cup FrCosmo \cup FrHtm
 
